@@ -13,6 +13,7 @@ import (
 
 	"verif/harness/eng"
 	"verif/harness/evid"
+	"verif/harness/gen"
 	"verif/harness/lang"
 )
 
@@ -46,7 +47,11 @@ type PrepHistCase struct {
 	FinalShape string     `json:"final_shape"`
 	FinalSize  int        `json:"final_size"`
 	NoOpt      bool       `json:"noopt"`
-	Msg        string     `json:"message,omitempty"`
+	// DeadContext: the context of the evaluator with the history has ended
+	// (cancelled, or used up by an endless run) before the last Prepare: what
+	// Prepare says about a script does not depend on that
+	DeadContext string `json:"dead_context,omitempty"`
+	Msg         string `json:"message,omitempty"`
 }
 
 // draft builds the script of a history step.
@@ -134,6 +139,10 @@ var prepFinals = map[string]func(n int) string{
 	// small scripts that ask for what an earlier script defined (n is ignored)
 	"calls-leftover-function": func(n int) string { return "return zg();" },
 	"redefines-function":      func(n int) string { return "function zf(a) { return \"new\"; }\nreturn [zf(1), zf(2)];" },
+	"compile-rejected-small": func(n int) string {
+		return "zq = 1;\nfunction zf(a) { foreach v in [a] { switch ( v ) { case 1 { return [1, 2, 3 += 4]; } } } }\nreturn zf(1);"
+	},
+	"compile-rejected-callee": func(n int) string { return "if ( t ) { zr = {\"k\": len(x)(1)}; }\nreturn 1;" },
 	"uses-ternary": func(n int) string {
 		return "function zt(a) { local b; b = a ? 1 : 2; return b; }\nreturn [t ? x : 0, zt(t), (x == 7) ? \"y\" : \"n\"];"
 	},
@@ -144,7 +153,7 @@ var prepFinals = map[string]func(n int) string{
 }
 
 var prepFinalNames = []string{"parentheses", "unary-minus", "if-nesting", "array-nesting", "sum-chain", "and-chain", "statements", "function-body",
-	"else-if-chain", "constants", "calls-leftover-function", "redefines-function", "same-constants", "reads-members", "uses-ternary", "local-outside-function", "nested-ternary"}
+	"else-if-chain", "constants", "calls-leftover-function", "redefines-function", "same-constants", "reads-members", "uses-ternary", "local-outside-function", "nested-ternary", "compile-rejected-small", "compile-rejected-callee"}
 
 // upper bounds for the bisection (a fresh evaluator refuses these sizes)
 var prepFinalMax = map[string]int{"parentheses": 10400, "unary-minus": 10400, "if-nesting": 10400, "array-nesting": 10400, "sum-chain": 40000,
@@ -337,6 +346,32 @@ func runPrepHist(c *PrepHistCase) (classes []string, err error) {
 	if late := freshAccepts(final, c.NoOpt); late != early {
 		return classes, fmt.Errorf("last script (%s, size %d): a fresh evaluator's Prepare said accepted=%v when this process first met the script and says accepted=%v after the history on another evaluator", c.FinalShape, c.FinalSize, early, late)
 	}
+	if c.DeadContext != "" {
+		dctx, dcancel := context.WithCancel(context.Background())
+		r.E.SetContext(dctx)
+		if c.DeadContext == "used-up" {
+			// an endless script first, stopped by a deadline of its own
+			tctx, tcancel := context.WithTimeout(context.Background(), 30*time.Millisecond)
+			r.E.SetContext(tctx)
+			r.E.Script = "function zw(a) { foreach v in [1, 2] { while ( true ) { a = a + 1; } } }\nswitch ( 1 ) { case 1 { zw(0); } }"
+			if perr, _ := r.Prepare(c.NoOpt); perr == nil {
+				_ = r.Execute(prepObject())
+			}
+			tcancel()
+		} else {
+			dcancel()
+		}
+		defer dcancel()
+		r.E.Script = final
+		perr, pan := r.Prepare(c.NoOpt)
+		if pan != nil {
+			return classes, fmt.Errorf("Prepare under a context that has ended (%s) panicked: %v", c.DeadContext, pan)
+		}
+		if (perr == nil) != want.accepted {
+			return classes, fmt.Errorf("last script (%s, size %d): a fresh evaluator's Prepare says accepted=%v; under a context that has ended (%s) Prepare says accepted=%v", c.FinalShape, c.FinalSize, want.accepted, c.DeadContext, perr == nil)
+		}
+		return append(classes, "last-prepare-under-ended-context:"+c.DeadContext), nil
+	}
 	r.E.Script = final
 	got, pan := prepAnswerOf(r, c.NoOpt)
 	if pan != nil {
@@ -422,6 +457,9 @@ func runPrepareHistories(t *testing.T, prop string) {
 			if c.FinalSize < 1 {
 				c.FinalSize = 1
 			}
+		}
+		if gen.Uniform(rt, "deadcontext", 5) == 0 {
+			c.DeadContext = rapid.SampledFrom([]string{"cancelled", "used-up"}).Draw(rt, "deadkind")
 		}
 		classes, err := runPrepHist(c)
 		if err != nil {
